@@ -26,7 +26,8 @@ type spreader interface {
 
 func newTree(cfg *config, roots []*Node) *tree {
 	growerFactory := func(lastNodeFormat, intermedialNodeFormat branchFormat, dryrun bool, encode encode) grower {
-		if encode != encodeDefault {
+		// the encoders need neither branches nor paths. a dry run prints the tree, whatever the encode option says.
+		if encode != encodeDefault && !dryrun {
 			return newNopGrower()
 		}
 		return newGrower(lastNodeFormat, intermedialNodeFormat, dryrun)
